@@ -1228,8 +1228,8 @@ class Scenario(TagAndStatusStatement, Replayable):
                     step.reset()
 
         self.clear_status()  # -- ENFORCE: compute_status() after run.
-        if not run_scenario and not self.steps:
-            # -- SPECIAL CASE: Scenario without steps.
+        if not run_scenario and not self.steps and not self.background_steps:
+            # -- SPECIAL CASE: Scenario without steps (and without background steps).
             self.set_status(Status.skipped)
 
 
